@@ -191,7 +191,7 @@ func ReadMultiSegmentFile(basePath string, globalBlockStart, globalBlockEnd int,
 
 // GlobalBlockToSegment converts a global block number to segment info
 func GlobalBlockToSegment(globalBlock int, segmentSize int) (segmentNum, localBlock int) {
-	if segmentSize <= 0 {
+	if segmentSize < PageSize {
 		segmentSize = DefaultSegmentSize
 	}
 	blocksPerSegment := segmentSize / PageSize
